@@ -210,7 +210,7 @@ func TestVerifC07Driver(t *testing.T) {
 	// read loop and EdgeX fills up
 	for _, typ := range []int{61, 63} {
 		var evs []string
-		for k := 1; k <= 48; k++ {
+		for k := 1; k <= 80; k++ {
 			evs = append(evs, fmt.Sprintf("m%d:%d", typ, k))
 		}
 		scripts = append(scripts, append(evs, "k4242", "k4243"))
